@@ -85,7 +85,8 @@ def run(ctx):
         cls = classify(cfg)
         for e in known:
             k = e.get("key", {})
-            if k.get("model") in (cls, "any") and k.get("kind") == kind and k.get("contribution") in (None, contribution):
+            if k.get("model") in (cls, "any") and k.get("kind") == kind and k.get("contribution") in (None, contribution) \
+                    and ("configs" not in k or cfg["name"] in k["configs"]):
                 V.report_known(ctx, e)
                 return
         V.violation(ctx, "%s [%s]: %s" % (cfg["name"], cls, what), dict(detail, config=cfg["name"], model_class=cls,
